@@ -72,6 +72,18 @@ static void one(const struct cparams *p, int cpu, uint64_t in_id, size_t len)
 				nfail++;
 			}
 			v_count("streams_decoded_by_both_references", 1);
+			for (int b = 0; b < vs_res.nblocks && b < RI_MAXBLK; b++)
+				if (vs_res.blk[b].type == 2) {
+					int ml = 0, md = 0;
+					for (int i = 0; i < 286; i++) ml = vs_res.blk[b].ll_len[i] > ml ? vs_res.blk[b].ll_len[i] : ml;
+					for (int i = 0; i < 30; i++) md = vs_res.blk[b].d_len[i] > md ? vs_res.blk[b].d_len[i] : md;
+					v_max("longest_litlen_code_produced", ml);
+					v_max("longest_distance_code_produced", md);
+					if (md == 15 && p->level)
+						v_count("blocks_with_15_bit_distance_codes", 1);
+					if (ml == 15 && p->level)
+						v_count("blocks_with_15_bit_litlen_codes", 1);
+				}
 			if (vs_res.nblocks > 1)
 				v_count("multi_block_streams", 1);
 		}
@@ -261,6 +273,37 @@ static void stateless_reuse(void)
 						}
 }
 
+/* level-buffer sizes between the named constants: the size decides the capacity of the token buffer and with it where blocks close
+ * (and which of "dynamic / static / stored" is chosen for how many bytes). One-shot and one-call compression of 300 000 bytes of
+ * text / incompressible / mixed data, levels 1-3, every named size and the size half-way to the next one, 3 kernel sets. */
+static void level_buf_sizes(uint64_t *unit)
+{
+	static const int cpus[] = { CPU_BASE, CPU_AVX2, CPU_AVX512G2 };
+	enum { LL = 300000 };
+	for (int kind = 0; kind < 3; kind++)
+		for (int level = 1; level <= 3; level++)
+			for (int zi = 0; zi < 9; zi++) {
+				uint64_t id = (*unit)++;
+				if (!v_mine(id))
+					continue;
+				if (nfail > 40 || v_deadline_hit())
+					return;
+				uint32_t named[5] = { lvl_min[level], lvl_small[level], lvl_medium[level], lvl_default[level], lvl_xl[level] };
+				uint32_t lbs = zi % 2 == 0 ? named[zi / 2] : (named[zi / 2] + named[zi / 2 + 1]) / 2 + 16 * (zi + level);
+				if (kind == 0) fill_pattern(inbuf, LL, PAT_TEXT, 11); else if (kind == 1) fill_xorshift(inbuf, LL, 12); else fill_mixed(inbuf, LL, 13);
+				snprintf(in_name, sizeof in_name, "lbsizes:%s:%d:level_buf_size=%u", kind == 0 ? "text" : kind == 1 ? "incompressible" : "mixed", LL, lbs);
+				for (int ci = 0; ci < 3; ci++)
+					for (int api = 0; api < 2; api++)
+						for (int gz = 0; gz < 2; gz++) {
+							cpu_set_level(cpus[ci]);
+							struct cparams p = { level, NO_FLUSH, gz ? IGZIP_GZIP : IGZIP_DEFLATE, 0, 0, LB_MIN, api ? API_ONECALL : API_STATELESS, 0, 0 };
+							C_LB_BYTES = lbs;
+							one(&p, cpus[ci], id, LL);
+							C_LB_BYTES = 0;
+						}
+			}
+}
+
 int main(int argc, char **argv)
 {
 	v_init(argc, argv, "C01");
@@ -369,6 +412,58 @@ int main(int argc, char **argv)
 						goto out;
 				}
 	}
+	/* FIBDIST: records of R fresh noise bytes followed by an L-byte copy from a distance whose CODE (distance symbol) is drawn with
+	 * Fibonacci frequencies; every copy source lies inside a noise stretch and is used once, so the match finder sees exactly that
+	 * distance. The distance trees the encoder builds for its own blocks at levels 1-3 then exceed 15 levels and must be
+	 * length-limited (with the large level buffers one block holds enough matches). */
+	for (int k = 0; k < (v_thorough ? 6 : 3); k++) {
+		uint64_t id = unit++;
+		if (!v_mine(id))
+			continue;
+		int R = k % 3 == 1 ? 5 : 6, L = k % 3 == 1 ? 5 : 4, rec = R + L, s0 = k % 3 == 2 ? 10 : 8, ns = 20;
+		int nrec = 17710, len = 0;
+		static uint8_t *used;
+		if (!used)
+			used = malloc(MAXIN / 8 + 1);
+		memset(used, 0, MAXIN / 8 + 1);
+		uint64_t x = 0x243f6a8885a308d3ull + k;
+		/* class weights: Fibonacci, most frequent = nearest distances (k >= 3: most frequent = farthest, after a noise warm-up) */
+		uint64_t fib[32], tot = 0;
+		fib[0] = fib[1] = 1;
+		for (int i = 2; i < ns; i++) fib[i] = fib[i - 1] + fib[i - 2];
+		for (int i = 0; i < ns; i++) tot += fib[i];
+		if (k >= 3)
+			for (; len < 33000; len++) { x ^= x << 13; x ^= x >> 7; x ^= x << 17; inbuf[len] = (uint8_t)(x >> 24); }
+		for (int r = 0; r < nrec && len + rec < MAXIN - 300000; r++) {
+			for (int j = 0; j < R; j++) { x ^= x << 13; x ^= x >> 7; x ^= x << 17; inbuf[len++] = (uint8_t)(x >> 24); }
+			x ^= x << 13; x ^= x >> 7; x ^= x << 17;
+			uint64_t pick = (x >> 11) % tot, acc = 0;
+			int ci = 0;
+			for (; ci < ns; ci++) { acc += fib[ci]; if (pick < acc) break; }
+			int sym = k >= 3 ? s0 + ci : s0 + ns - 1 - ci; /* ci = ns-1 is the most frequent class */
+			int done = 0;
+			for (int tries = 0; tries < 2 && !done; tries++, sym = k >= 3 ? s0 + ns - 1 : s0) {
+				uint32_t lo = g_dist_base[sym], hi = lo + (1u << g_dist_extra[sym]) - 1;
+				for (uint32_t d = lo; d <= hi && !done; d++) {
+					if ((uint32_t)len < d)
+						break;
+					int p = len - (int)d;
+					/* the source must lie inside the noise part of a record (copies of copies would give a second, nearer occurrence) */
+					int base = k >= 3 ? 33000 : 0;
+					if (p < base || (p - base) % rec + L > R || (used[p >> 3] >> (p & 7) & 1))
+						continue;
+					used[p >> 3] |= (uint8_t)(1 << (p & 7));
+					for (int j = 0; j < L; j++, len++)
+						inbuf[len] = inbuf[len - d];
+					done = 1;
+				}
+			}
+			if (!done)
+				for (int j = 0; j < L; j++) { x ^= x << 13; x ^= x >> 7; x ^= x << 17; inbuf[len++] = (uint8_t)(x >> 24); }
+		}
+		snprintf(in_name, sizeof in_name, "fibdist:variant%d:%d", k, len);
+		sweep(id, len, 1, 1);
+	}
 	/* FARMIX: back-to-back far matches of assorted lengths (widest encoded symbols); levels 1-3 matter, every CPU level */
 	for (int k = 0; k < (v_thorough ? 6 : 1); k++) {
 		uint64_t id = unit++;
@@ -379,6 +474,7 @@ int main(int argc, char **argv)
 		snprintf(in_name, sizeof in_name, "farmix:%d:seed%d", len, k);
 		sweep(id, len, 0, 2);
 	}
+	level_buf_sizes(&unit);
 	/* BIG (thorough): window wrap, stored-block splitting at 65535, 16-bit hash index wrap */
 	if (v_thorough)
 		for (int li = 0; li < N_BIG_LENS; li++)
